@@ -8,13 +8,14 @@ from .pools import PoolRun, tb_tail
 ID = 'C09'
 LEVEL = 'exploration'
 BUDGET = {'quick': 100, 'thorough': 900}
-RULE = ('Cases = histories of <= 7 operations from {add_worker, attach, run(inputs), restart_workers, kill a worker, make a worker '
+RULE = ('Cases = histories of <= 7 operations from {add_worker, attach, run(inputs), run with an input fatal to every worker, restart_workers, kill a worker, make a worker '
         'stuck in an uncooperative target, failing registration (handle_new_worker raises), failing construction (connection '
         'refused, spawn fails), exception in the with-body, close, terminate} x mixed pools x close_timeout {0.05, 1} x force '
         '{None, True, False} x schedule.')
 ASSUMPTIONS = ['responsive clock', 'thread workers stuck in an uncooperative target cannot be killed (excluded from the no-outliving clause)']
 
 PKINDS = ['pthread', 'pprocess', 'premote']
+POISON = 666
 
 
 def gen_case(ctx, rng, i, tag='random'):
@@ -33,8 +34,17 @@ def gen_case(ctx, rng, i, tag='random'):
         return out
     for _ in range(rng.randrange(1, 6)):
         r = rng.random()
-        if r < 0.35:
+        if r < 0.30:
             ops.append(['run', inputs()])
+        elif r < 0.36:
+            # a run that cannot succeed: one input kills every worker that touches it (the pool retries it until all are dead)
+            xs = inputs()
+            xs.insert(rng.randrange(0, len(xs) + 1), POISON)
+            ops.append(['run-poison', xs])
+            if rng.random() < 0.6:
+                # the documented way back: revive the workers and run again
+                ops.append(['restart'])
+                ops.append(['run', inputs()])
         elif r < 0.45:
             ops.append(['restart'])
         elif r < 0.55:
@@ -88,7 +98,7 @@ class Run(PoolRun):
                     fail_reg['armed'] = False
                     raise BodyError('registration refused')
 
-        pool = FailingPool(T.p_pool, kwargs={'poison': []}, retry=True, close_timeout=c['close_timeout'])
+        pool = FailingPool(T.p_pool, kwargs={'poison': [POISON]}, retry=True, close_timeout=c['close_timeout'])
         if c['force'] is not None:
             pool.force = c['force']
         self.pool = pool
@@ -149,7 +159,7 @@ class Run(PoolRun):
                 nprocs = set(p.pid for p in s.procs.values() if p.alive)
                 if name == 'attach':
                     from pyworkers.utils import Pipe
-                    r = lib.call_with_deadline(lib.make_worker, 600.0, kind, 'p_pool', kwargs={'poison': []}, host=host,
+                    r = lib.call_with_deadline(lib.make_worker, 600.0, kind, 'p_pool', kwargs={'poison': [POISON]}, host=host,
                                                results_pipe=Pipe())
                     if r[0] != 'ok':
                         continue
@@ -197,8 +207,25 @@ class Run(PoolRun):
                     self.viol('failed-construction', f'child-left-behind-after-failed-construction:{op[1]}', [p.name for p in leaked])
                 if len(list(pool.workers)) != nw:
                     self.viol('failed-construction', f'failed-worker-registered-in-pool:{op[1]}')
-            elif name in ('run', 'restart') and self.stuck:
+            elif name in ('run', 'run-poison', 'restart') and self.stuck:
                 continue      # a stuck worker never answers: the premise of run() is not met
+            elif name == 'run-poison':
+                inputs = op[1]
+                live = self.live_workers()
+                r = lib.call_with_deadline(pool.run, 1800.0, iter(list(inputs)))
+                exp = [repr(['r', x]) for x in inputs if x != POISON]
+                if r[0] == 'hung':
+                    self.viol('run-returns', 'run-hangs:poison', s.blocked_report()[:6])
+                    return
+                if r[0] == 'exc' and isinstance(r[1], PoolError):
+                    got = [repr(x) for x in (r[1].partial_results or [])]
+                    if any(g not in exp for g in got) or len(set(got)) != len(got):
+                        self.viol('run-per-run-results', 'partial-results-of-another-run-or-duplicated', {'got': got, 'exp': exp})
+                elif r[0] == 'exc':
+                    if not (isinstance(r[1], RuntimeError) and 'closed Pool' in str(r[1])):
+                        self.viol('run-returns', f'run-raises:{type(r[1]).__name__}@{tb_tail(r[1])}', lib.safe_repr(r[1]))
+                elif live and r[1] is not None:
+                    self.viol('run-per-run-results', 'run-with-a-fatal-input-returned-normally', lib.safe_repr(r[1]))
             elif name == 'run':
                 inputs = op[1]
                 live = self.live_workers()
@@ -213,7 +240,10 @@ class Run(PoolRun):
                 if r[0] == 'exc':
                     if isinstance(r[1], PoolError):
                         if live and not self.stuck:
-                            self.viol('run-per-run-results', 'PoolError-with-live-workers', str(r[1]))
+                            s.sleep(0.5)
+                            still = [w for w in live if not self.child_gone(w) and lib.timed(w.is_alive)[1] is True]
+                            if still:
+                                self.viol('run-per-run-results', 'PoolError-with-live-workers', str(r[1]))
                     elif isinstance(r[1], RuntimeError) and 'closed Pool' in str(r[1]):
                         pass
                     else:
@@ -222,7 +252,11 @@ class Run(PoolRun):
                     got = r[1]
                     if got is None:
                         if inputs and self.workers:
-                            self.viol('run-per-run-results', f'run-returned-None:live-workers={len(live)}')
+                            # a worker that was dying when the run started (already closed by the pool, process not yet gone) does
+                            # not count as live: look again after things have settled
+                            s.sleep(0.5)
+                            still = [w for w in live if not self.child_gone(w) and lib.timed(w.is_alive)[1] is True]
+                            self.viol('run-per-run-results', f'run-returned-None:live-workers={len(still)}')
                     else:
                         g = sorted(map(repr, got))
                         if g != exp:
